@@ -1005,3 +1005,40 @@ def _(I, s, xp):
         if c == 0: return ok(i)
         if c > 0: return err(i)
     return err(len(items))
+
+
+@summary("core::slice::<impl []>::binary_search_by", "<impl []>::binary_search_by")
+def _(I, s, f):
+    """bisection exactly as core does it (so that an inconsistent comparator misbehaves the same way)"""
+    items = s.items(); size = len(items)
+    if size == 0: return err(0)
+    base = 0
+    while size > 1:
+        half = size // 2; mid = base + half
+        c = I.call_closure(f, tup(Ptr(Cell(s.obj), (s.start + mid,))))
+        if c.var != "Greater": base = mid
+        size -= half
+    c = I.call_closure(f, tup(Ptr(Cell(s.obj), (s.start + base,))))
+    if c.var == "Equal": return ok(base)
+    return err(base + (1 if c.var == "Less" else 0))
+
+
+def _try_fold(I, itp, init, f):
+    acc = init
+    while True:
+        r = it_next(I, itp)
+        if r.idx == 0:
+            # Try::from_output(acc): the accumulator type tells which Try type is in use; Result/Option are the ones used here
+            return I.user_try_output(acc) if hasattr(I, "user_try_output") else ok(acc)
+        step = I.call_closure(f, tup(acc, r.f[0]))
+        if type(step) is Enum and step.ty == "Result":
+            if step.idx == 1: return step
+            acc = step.f[0]
+        elif type(step) is Enum and step.ty == "Option":
+            if step.idx == 0: return step
+            acc = step.f[0]
+        else:
+            raise Unsupported(f"try_fold over {step!r}")
+
+
+_consuming("try_fold", _try_fold)
